@@ -227,6 +227,13 @@ impl SocketWorker {
 
     fn run_inner(&mut self, ring: &mut IoUring) {
         loop {
+            #[cfg(feature = "verif")]
+            if let aquatic_common::verif::ProbeAction::Return =
+                aquatic_common::verif::probe("udp:socket:loop", 1)
+            {
+                return;
+            }
+
             for sqe in self.resubmittable_sqe_buf.drain(..) {
                 unsafe { ring.submission().push(&sqe).unwrap() };
             }
